@@ -390,6 +390,14 @@ DUPS['noint-object-files-twice'] = _NOINT + "object_files(['a.c', 'x.c'])\n" \
     "object_files(['x.c', 'b.c'], compile_options=['-DQ'])\n"
 # the very same declaration written twice (a rule table that "merges identical rules" accepts
 # these; the second declaration still names an existing output)
+# a name used for a produced file AND for a phony target of the same build file (an alias,
+# the test target): two rules for one name, whichever is declared first
+DUPS['exe-then-alias-of-the-same-name'] = "e = executable('t', files=['a.c'])\nalias('t', [e])\n"
+DUPS['alias-then-exe-of-the-same-name'] = "o = object_file('o', file='b.c')\nalias('t', [o])\n" \
+    "executable('t', files=['a.c'])\n"
+DUPS['exe-named-like-the-test-target'] = "e = executable('tests', files=['a.c'])\n" \
+    "o = executable('other', files=['b.c'])\ntest(o)\n"
+DUPS['step-then-alias-of-the-same-name'] = _step(['g.txt']) + "alias('g.txt', [])\n"
 DUPS['same-exe-twice'] = "executable('t', files=['a.c'])\n" * 2
 DUPS['same-obj-twice'] = "object_file('o', file='a.c')\n" * 2
 DUPS['same-obj-twice-other-options'] = "object_file('o', file='a.c')\n" \
@@ -609,6 +617,19 @@ ABS_FORMS = {
                               "default(executable('prog', files=['main.c']))\n",
     'copies-of-files-elsewhere': "default(copy_files(['@EXT@/data.txt']))\n"
                                  "default(executable('prog', files=['main.c']))\n",
+    # ... the same with directory= (the output is placed below that directory)
+    'copy-of-file-elsewhere-into-directory':
+        "default(copy_file(file='@EXT@/data.txt', directory='out'))\n"
+        "default(executable('prog', files=['main.c']))\n",
+    'copies-of-files-elsewhere-into-directory':
+        "default(copy_files(['@EXT@/data.txt', '@SRC@/sub/foo.c'], directory='out'))\n"
+        "default(executable('prog', files=['main.c']))\n",
+    'object-files-of-sources-elsewhere-into-directory':
+        "default(object_files(['@EXT@/foo.c'], directory='objs'))\n"
+        "default(executable('prog', files=['main.c']))\n",
+    'object-file-of-source-in-srcdir-into-directory':
+        "default(object_file(file='@SRC@/sub/foo.c', directory='objs'))\n"
+        "default(executable('prog', files=['main.c']))\n",
     # the precompiled header of a header named by an absolute path
     'pch-of-header-elsewhere': "executable('prog', files=['main.c'], pch='@EXT@/pre.h')\n",
     'pch-of-header-in-srcdir': "executable('prog', files=['main.c'], pch='@SRC@/sub/pre.h')\n",
